@@ -69,6 +69,15 @@ func cloneValue(src interface{}, dst interface{}) {
 			cloneValue(srcVal.Index(i).Interface(), dstElem.Index(i).Addr().Interface())
 		}
 
+	case reflect.Array:
+		// an array is copied by value but its elements may be (or hold)
+		// pointers, slices or maps which must not be shared
+		tmp := reflect.New(srcType).Elem()
+		for i := 0; i < srcVal.Len(); i++ {
+			cloneValue(srcVal.Index(i).Interface(), tmp.Index(i).Addr().Interface())
+		}
+		dstVal.Elem().Set(tmp)
+
 	case reflect.Map:
 		dstElem := dstVal.Elem()
 		dstElem.Set(reflect.MakeMap(srcType))
